@@ -45,6 +45,11 @@ D2 == Built(S2, P2)
 Extra == {
   Struct(<<>>),
   Struct("a" :> TInt @@ "b" :> TInt @@ "c" :> TInt),
+  \* structs whose field NAME sets are incomparable or overlap partly (same width, other names)
+  Struct("b" :> TInt), Struct("c" :> TInt), Struct("a" :> TInt @@ "c" :> TInt), Struct("b" :> TInt @@ "c" :> TInt),
+  Struct("b" :> TInt @@ "c" :> TFloat), Struct("a" :> IntFloat @@ "c" :> TInt),
+  Multi({Struct("a" :> TInt), Struct("b" :> TInt)}), Multi({Struct("a" :> TInt @@ "b" :> TInt), Struct("a" :> TInt @@ "c" :> TInt)}),
+  Arr(Struct("b" :> TInt)), Fn(<<Struct("a" :> TInt @@ "b" :> TInt)>>, Struct("a" :> TInt @@ "c" :> TInt)),
   Tup(<<TInt, TInt, TInt>>), Tup(<<TInt, TFloat, TString>>),
   Fn(<<TInt, TInt>>, TInt), Fn(<<TAny, TInt>>, TInt), Fn(<<TInt, TFloat>>, IntFloat),
   Multi({TInt, TFloat, TString}), Multi({TInt, TVoid}), Multi({TString, Arr(TAny)}),
@@ -98,6 +103,8 @@ Vals0 == Scalars
    \cup {[k |-> "struct", fs |-> "a" :> x] : x \in Scalars}
    \cup {[k |-> "struct", fs |-> "a" :> x @@ "b" :> y] : x \in {VInt, VFloat}, y \in {VInt, VStr}}
    \cup {[k |-> "struct", fs |-> "a" :> VInt @@ "b" :> VInt @@ "c" :> VInt]}
+   \cup {[k |-> "struct", fs |-> "b" :> VInt], [k |-> "struct", fs |-> "a" :> VInt @@ "c" :> VInt],
+         [k |-> "struct", fs |-> "b" :> VInt @@ "c" :> VInt]}
    \cup {[k |-> "cell", ty |-> TInt, c |-> VInt], [k |-> "cell", ty |-> TFloat, c |-> VFloat],
          [k |-> "cell", ty |-> IntFloat, c |-> VInt], [k |-> "cell", ty |-> TAny, c |-> VStr],
          [k |-> "cell", ty |-> Arr(TInt), c |-> VArr(TNever, <<>>)]}
